@@ -214,6 +214,10 @@ type Listener struct {
 	// CloseAgainErr: what Close reports when the listener is closed already (net.TCPListener reports "use of closed network
 	// connection"; a listener of the application's may report whatever it likes)
 	CloseAgainErr error
+	// CloseDelay: Close wakes a blocked Accept at once but returns only after this long (a listener that has cleaning up to
+	// do: unlinking a socket, draining a queue). Whatever order Shutdown does things in, the accept loop must not mistake
+	// the woken Accept's error for a failure of the listener.
+	CloseDelay time.Duration
 }
 
 func NewListener() *Listener {
@@ -279,6 +283,9 @@ func (l *Listener) Close() error {
 		first = true
 		l.Log.Add("listener:close")
 		close(l.closed)
+		if l.CloseDelay > 0 {
+			time.Sleep(l.CloseDelay)
+		}
 	})
 	if !first {
 		return l.CloseAgainErr
